@@ -235,6 +235,7 @@ type nthread struct {
 	wake chan struct{}
 	done bool
 	goid uint64
+	wait *int32 // the flag the thread is parked on in WaitFor, if any
 }
 
 // goid identifies the calling goroutine (parsed from the stack header; replay-only code).
@@ -446,10 +447,47 @@ func Ticks(k int) {}
 // crypto/rand stays real.
 func DistinctRandomness() {}
 
+// WaitFor blocks the calling goroutine until *flag is non-zero (set it with
+// atomic.StoreInt32). Under the executor and under the cooperative replay
+// scheduler the wait is a scheduling point, so a harness can hold one operation
+// "in flight" while others run.
+func WaitFor(flag *int32) {
+	for atomic.LoadInt32(flag) == 0 {
+		if Scheduled && registered() {
+			me := schedCur
+			me.wait = flag
+			schedSwitch(true)
+			me.wait = nil
+		} else {
+			runtime.Gosched()
+			time.Sleep(50 * time.Microsecond)
+		}
+	}
+}
+
 // Settle lets goroutines started so far (e.g. by a constructor) reach their
 // parking point before the concurrent part of a harness begins. Only tickers
 // created after the latest Ticks call ever fire under the executor.
 func Settle() {
+	if Scheduled && registered() {
+		// cooperative replay: run the others until each is done or parked in WaitFor
+		for spins := 0; spins < 100000; spins++ {
+			busy := false
+			schedMu.Lock()
+			all := append([]*nthread{}, schedTh...)
+			schedMu.Unlock()
+			for _, t := range all {
+				if t != schedCur && !t.done && (t.wait == nil || atomic.LoadInt32(t.wait) != 0) {
+					busy = true
+				}
+			}
+			if !busy {
+				return
+			}
+			schedSwitch(true)
+		}
+		panic("verifrt: Settle: the other goroutines never came to rest")
+	}
 	runtime.Gosched()
 	time.Sleep(time.Millisecond)
 }
